@@ -69,13 +69,14 @@ class Spec:
         s.epilogue = list(self.epilogue)
         s.props = list(self.props)
         s.sigsubst = list(self.sigsubst)
+        s.inserts = list(self.inserts)
         if arm:
             s.prelude += arm.prelude
             s.epilogue += arm.epilogue
             if arm.props:
                 s.props = arm.props
             s.loops = arm.loops
-            s.inserts = arm.inserts
+            s.inserts = list(self.inserts) + list(arm.inserts)
             s.rewrites += arm.rewrites
             s.assume = arm.assume
             s.extra = arm.extra
